@@ -23,3 +23,4 @@ var (
 )
 
 func CancelStepOf(ctx Context) int { return 0 }
+func IDOf(ctx Context) int         { return 0 }
